@@ -64,7 +64,8 @@ fn reference_ratio(class: usize) -> Result<f64, String> {
             let (mode, bits) = match class {
                 0 => (GameMode::Catch, 0),
                 1 => (GameMode::Mania, 0),
-                _ => (GameMode::Osu, 0),
+                // (with the Flashlight mod on: the rating need not be evaluated at all without it)
+                _ => (GameMode::Osu, crate::gen::diff::FL),
             };
             let d = rosu_pp::Difficulty::new().mods(bits);
             let strains = strains_for_mode(&d, &map, mode)?;
